@@ -59,6 +59,9 @@ type World struct {
 	Disp []string
 	// Avoid: outpoints random transactions must not spend (inputs of pending transactions)
 	Avoid map[wire.OutPoint]bool
+	// NoDrop: a rolled-back wallet transaction is always re-mined or conflicted on the new branch,
+	// never left pending for ever (used where runs that saw different abandoned blocks are compared)
+	NoDrop bool
 	// curHeight: height of the block being built (script choice depends on the fork height)
 	curHeight uint64
 }
@@ -522,7 +525,11 @@ func (w *World) Fork(depth, length, nRandom int) (*Block, bool, error) {
 		return nil, false, err
 	}
 	for _, tx := range rolled {
-		switch w.R.Pick(4, 3, 3) {
+		disp := w.R.Pick(4, 3, 3)
+		if w.NoDrop && disp == 1 {
+			disp = 0
+		}
+		switch disp {
 		case 0:
 			carry = append(carry, tx)
 			w.Disp = append(w.Disp, "remine")
@@ -539,6 +546,11 @@ func (w *World) Fork(depth, length, nRandom int) (*Block, bool, error) {
 				}
 			}
 			if op == nil {
+				if w.NoDrop {
+					carry = append(carry, tx)
+					w.Disp = append(w.Disp, "remine")
+					break
+				}
 				w.Disp = append(w.Disp, "drop")
 				break
 			}
